@@ -138,7 +138,8 @@ class PubSubModel:
         acks: Dict[int, list] = {}
         for wfr in net.writes:
             h = wfr.hdr
-            if h.msg_type == C.MT_ACKNOWLEDGE and h.src_mod_id == 0 and h.num_data_bytes == 0:
+            if h.msg_type == C.MT_ACKNOWLEDGE and h.src_mod_id == 0 and h.num_data_bytes == 0 \
+                    and h.send_time < 1.0e9:      # (actors' own frames carry tags >= 1e9)
                 acks.setdefault(wfr.conn, []).append(wfr)
         self.acks_by_conn = acks
         read_seqs = [fr.seq for fr in net.reads]
@@ -292,7 +293,15 @@ class PubSubModel:
             if req_id == 0:
                 m.dynamic = True
                 # the id is whatever the acknowledgement says (its soundness is C06's oracle)
-                m.mod_id = ack.hdr.dest_mod_id if ack is not None else -1
+                if ack is not None:
+                    m.mod_id = ack.hdr.dest_mod_id
+                else:
+                    # own ACK lost (peer already gone): learn the id from a logger's copy, if any
+                    m.mod_id = -1
+                    for lst in self.acks_by_conn.values():
+                        for wf in lst:
+                            if fr.done_seq < wf.seq < next_read:
+                                m.mod_id = wf.hdr.dest_mod_id
             else:
                 m.mod_id = req_id
             c.mod_id = m.mod_id
@@ -329,4 +338,5 @@ class PubSubModel:
                         d.logger_waited.append(m.conn)
                 else:
                     d.dropped.append(m.conn)
-        d.wfailed = [c for (s, c, _k, _e) in net.wfails if fr.done_seq < s < next_read]
+        d.wfailed = [c for (s, c, _k, _e, mt, tag) in net.wfails
+                     if fr.done_seq < s < next_read and mt == h.msg_type and tag == h.send_time]
